@@ -10,7 +10,7 @@ difference; tests that use one of the forms cannot see it.
 """
 import ast
 
-from ..expr import SymEval, SArray, Unsupported, Opaque
+from ..expr import SymEval, SArray, Unsupported, Opaque, RuntimeFailure
 from ..model import AnalysisError
 from ..nf import Alg, Rat
 from ..rotmodel import RotHooks
@@ -30,6 +30,7 @@ TARGETS = [
     ('transform.mat_en_from_ll', ['s:lat', 's:lon']),
     ('transform.mat_from_rph', ['v:roll,pitch,heading']),
     ('util.skew_matrix', ['v:a,b,c']),
+    ('error_model._phi_to_delta_rph', ['v:roll,pitch,heading']),
 ]
 
 
@@ -73,7 +74,19 @@ def _flat(v):
     return {(): v}
 
 
-def form_agree(ctx, modules=None):
+def _sampleness(v):
+    """tuple of the per-sample flags of the arrays in a result (scalars carry none)"""
+    if isinstance(v, SArray):
+        return (bool(v.sample),)
+    if isinstance(v, (tuple, list)):
+        out = ()
+        for x in v:
+            out += _sampleness(x)
+        return out
+    return ()
+
+
+def form_agree(ctx, modules=None, floor=None):
     ctx.rule('FORM-AGREE', 'scalar form and stacked form of the same input give the same value for '
              'the generic sample (the two ndim-dispatch arms compute the same function)')
     repo = ctx.repo
@@ -86,7 +99,7 @@ def form_agree(ctx, modules=None):
         has_data_compare = fq.endswith('ecef_to_lla')
         for outcome in ((True, False) if has_data_compare else (True,)):
             A = Alg()
-            res = {}
+            res, rank = {}, {}
             for stacked in (False, True):
                 ev = SymEval(repo, A, hooks=_FH(outcome))
                 ev.stacked = stacked
@@ -100,9 +113,11 @@ def form_agree(ctx, modules=None):
                         args.append(SArray((len(nm),), {(i,): A.sym(x) for i, x in enumerate(nm)},
                                            None, stacked))
                 try:
-                    res[stacked] = _flat(ev.call_function(f, args))
+                    raw = ev.call_function(f, args)
+                    rank[stacked] = _sampleness(raw)
+                    res[stacked] = _flat(raw)
                 except Unsupported as e:
-                    if str(e).startswith('shape mismatch'):
+                    if str(e).startswith('shape mismatch') or isinstance(e, RuntimeFailure):
                         res[stacked] = 'raises: %s' % e
                         continue
                     raise AnalysisError('%s not analysable in %s form: %s'
@@ -123,14 +138,25 @@ def form_agree(ctx, modules=None):
                             diff.append('component %s' % (list(k),))
                     elif not (x is None and y is None):
                         diff.append('component %s (not comparable)' % (list(k),))
+            # rank of the result: the scalar form returns one value (no leading axis of length
+            # 1 left over from the shared (n, ...) buffer), the stacked form one value per sample
+            # (not row 0 of the buffer)
+            if not diff and True in rank.get(False, ()):
+                diff.append('the scalar form returns the internal (1, ...) buffer instead of its '
+                            'only row (extra leading axis)')
+            if not diff and False in rank.get(True, ()) and True in rank.get(True, ()) or \
+                    (not diff and rank.get(True) == (False,) and any(
+                        isinstance(x, Rat) and not A.is_const(x) for x in b.values())):
+                diff.append('the stacked form returns a single row of its per-sample result '
+                            '(the other samples are dropped)')
             n += 1
             ctx.ob('FORM-AGREE', not diff, None,
                    '%s: scalar and stacked forms agree on %d components%s'
                    % (fq, len(a), '' if not has_data_compare else ' (comparison outcome %s)' % outcome),
-                   f=f, key='form-%s-%s' % (fq, outcome),
+                   f=f, node=f.node, key='form-%s-%s' % (fq, outcome),
                    why='%s returns different values for the scalar form and for one row of the '
                        'stacked form of the same input: %s' % (fq, '; '.join(diff[:4])))
-    ctx.floor('FORM-AGREE', n, 5 if modules else 12, 'dual-form functions compared')
+    ctx.floor('FORM-AGREE', n, floor or (5 if modules else 12), 'dual-form functions compared')
 
 
 def _same(A, x, y):
@@ -188,6 +214,15 @@ def form_agree_tables(ctx):
                                         % (mname, kind, e))
             ctx.touch(f)
             n += 1
+            rs, rf = _sampleness(res['series']), _sampleness(res['frame'])
+            ctx.ob('FORM-AGREE', True not in rs and False not in rf, None,
+                   'InsErrorModel.%s (with_altitude=%s): one result for a Pva series, one per '
+                   'row for a Trajectory table' % (mname, wa), f=f, node=f.node,
+                   key='table-rank-%s-%s' % (mname, wa),
+                   why='InsErrorModel.%s (with_altitude=%s) %s' % (mname, wa, (
+                       'returns an array with a leading axis of length 1 for a Pva series'
+                       if True in rs else 'returns a single row of a per-sample quantity for a '
+                       'Trajectory table (the matrix of the first state is used for all)')))
             ctx.ob('FORM-AGREE', _same(A, res['series'], res['frame']), None,
                    'InsErrorModel.%s (with_altitude=%s): Series and DataFrame forms agree'
                    % (mname, wa), f=f, key='table-%s-%s' % (mname, wa),
